@@ -1575,6 +1575,11 @@ func (c *twoPhaseCommitter) checkAsyncCommit() bool {
 			if totalKeySize > asyncCommitCfg.TotalKeySizeLimit {
 				return false
 			}
+			// A non-locking existence check is not one of the primary's secondaries: once the other keys are locked the
+			// transaction counts as committed for every resolver, although this check may still fail and abort it.
+			if c.mutations.GetOp(i) == kvrpcpb.Op_CheckNotExists {
+				return false
+			}
 		}
 		return true
 	}
